@@ -46,6 +46,12 @@ CLAIMS = {
    "C11_nothrow / C11_never_terminate: the non-throwing PBKDF2 only returns false, nothing terminates; C11_pinned_refuted keeps finding F2 machine-checked. Decoders (total, never throw) are C13-C15. "
    "Correspondence: ~11k forked calls over the cross product of per-parameter classes incl. selectors -1/3/7/255/INT_MIN/INT_MAX, L = SIZE_MAX-30..SIZE_MAX, iteration and dk_len limits, clock failures; observed verdict incl. terminate / crash / 'false but output written'.",
    note="Acceptance at limits that cannot be executed (dk_len = (2^32-1)*hLen, message length SIZE_MAX-block) is covered by the theorem and by the reject side of the boundary only.", ref="DESIGN.md 7/C11"),
+ "C12": dict(text="PARTIAL. Proved (Coq): the array-index arithmetic of the code that works on raw C arrays - C12_sha256_in_bounds / C12_sha512_in_bounds: for EVERY context object and every history of init/updates, the next update(len) and finish() "
+   "read and write only inside m_block[0, 2*BLOCK) and message[0, len), and no size_t subtraction wraps (from the invariant m_len < BLOCK of the refinement proof); C12_hotp_reads / C12_divisor_index: the digest-truncation helper on ANY digest reads inside the digest whenever it returns, "
+   "and indexes its divisor table inside its nine entries; C12_decoders_total / C12_base36_fuel: every decoder result on ANY input is a byte string and the Base36 loops terminate with bounded carries; C16_invariant covers size <= capacity of secure_buffer. "
+   "Observed, not proved: use-after-free, leaks, alignment, signed overflow / shifts and UB in code that is not modelled - all correspondence corpora of C01-C09, C11, C13-C16, C18 plus decoder / truncation / comparison inputs made of arbitrary bytes are re-run on an ASan+UBSan+LSan build; any report is a violation with the offending case as replay.",
+   note="The model cannot exhibit: use-after-free, leaks, alignment, UB of unmodelled code paths, what the optimiser does. Quick tier re-runs a 1/2..1/6 sample of each corpus (g++ -O1); thorough the full corpora plus clang.", ref="DESIGN.md 7/C12",
+   technique="Coq theorems on index ranges of the array-manipulating models + sanitizer (ASan/UBSan/LSan) re-run of all correspondence corpora"),
  "C13": dict(text="Theorems C13_encode, C13_alphabet, C13_language, C13_langb, C13_value, C13_roundtrip, C13_decoded_ok, C13_encode_length: the model of base64_encode equals the bit-level RFC 4648 encoding for every byte string, alphabet and pad flag; "
    "the model of base64_decode (reverse table built by the code's assignments with -1/-2 markers and URL aliases, the quartet loop with its pad2/pad3 arms and 'must be the last quartet' tests, unpadded tails) returns Some iff the filtered text is in the documented language "
    "(alphabet characters, '=' only as the final one or two characters of a complete last quartet, length multiple of 4 when padding is required and not 1 mod 4 otherwise; lenient mode skips space/CR/LF/TAB and takes '+' '/' as aliases under the URL alphabet) and then yields the RFC 4648 bytes; "
